@@ -27,6 +27,9 @@ type c14Case struct {
 	Precomputed bool      `json:"precomputed"`
 	Queries     [][]int   `json:"queries"` // each: value index followed by edit positions
 	Ops         [][]c14Op `json:"ops"`     // per goroutine
+	// Nested: one more known value that is the first 12 words of value 0 (a value contained in another one, like a
+	// license header inside its license): an input with value 0 then holds two exact copies that overlap.
+	Nested bool `json:"nested,omitempty"`
 }
 
 var c14Words = strings.Fields("permission is hereby granted free of charge to any person obtaining a copy of this software and associated documentation files the to deal in without restriction including limitation rights use modify merge publish distribute sublicense sell copies permit persons whom furnished do so subject following conditions above copyright notice shall be included all substantial portions provided as warranty kind express implied")
@@ -40,7 +43,7 @@ func c14Text(ws []int) string {
 }
 
 func c14Gen(t *rapid.T) interface{} {
-	c := &c14Case{Precomputed: lib.Bool(t, "precomputed")}
+	c := &c14Case{Precomputed: lib.Bool(t, "precomputed"), Nested: lib.IntN(t, 0, 2, "nested") == 0}
 	nv := lib.IntN(t, 2, 8, "nvalues")
 	for i := 0; i < nv; i++ {
 		c.Values = append(c.Values, lib.Ints(t, 25, 90, 0, len(c14Words)-1, "value"))
@@ -76,6 +79,18 @@ func c14Populate(c *c14Case) (*Classifier, error) {
 			err = cl.AddPrecomputedValue(fmt.Sprintf("v%d", i), txt, searchset.New(txt, searchset.DefaultGranularity))
 		} else {
 			err = cl.AddValue(fmt.Sprintf("v%d", i), txt)
+		}
+		if err != nil {
+			return nil, err
+		}
+	}
+	if c.Nested && len(c.Values) > 0 && len(c.Values[0]) >= 12 {
+		txt := c14Text(c.Values[0][:12])
+		var err error
+		if c.Precomputed {
+			err = cl.AddPrecomputedValue("nested-in-v0", txt, searchset.New(txt, searchset.DefaultGranularity))
+		} else {
+			err = cl.AddValue("nested-in-v0", txt)
 		}
 		if err != nil {
 			return nil, err
@@ -204,6 +219,9 @@ func c14Check(ci interface{}) lib.Outcome {
 	classes := []string{fmt.Sprintf("goroutines-%d", len(c.Ops))}
 	if sameKeyCalls > 1 {
 		classes = append(classes, "contended-AddValue-same-key")
+	}
+	if c.Nested {
+		classes = append(classes, "a-value-nested-in-another")
 	}
 	if c.Precomputed {
 		classes = append(classes, "precomputed-search-sets")
